@@ -96,7 +96,15 @@ func cmdCheck(argv []string) int {
 	tload := time.Since(t0)
 	var vcs []*VC
 	var missing []string
-	for _, c := range sel {
+	done := map[string]bool{}
+	work := append([]*Contract{}, sel...)
+	for len(work) > 0 {
+		c := work[0]
+		work = work[1:]
+		if done[c.Key] {
+			continue
+		}
+		done[c.Key] = true
 		if c.Lemma {
 			vcs = append(vcs, eng.verifyLemma(c))
 			continue
@@ -108,6 +116,27 @@ func cmdCheck(argv []string) int {
 		}
 		vc := eng.verifyFunc(fn, c)
 		vcs = append(vcs, vc)
+		// callee closure: a property is only as good as the contracts its functions rely on, so every
+		// verified (non-assumed) contract used at a call site is checked under this property too
+		if re == nil {
+			var ks []string
+			for k := range vc.used {
+				ks = append(ks, k)
+			}
+			sort.Strings(ks)
+			for _, k := range ks {
+				uc := eng.contracts[k]
+				if uc == nil {
+					uc = eng.contracts[k+"@value"]
+				}
+				if uc == nil || uc.Extern || uc.Assumed || uc.Iface || done[uc.Key] {
+					continue
+				}
+				if uc.Lemma || eng.funcs[uc.Key] != nil {
+					work = append(work, uc)
+				}
+			}
+		}
 	}
 	tmp := *keep
 	if tmp == "" {
